@@ -39,6 +39,10 @@ fn prior_calls(k: usize) -> Vec<Vec<u8>> {
     }
 }
 
+thread_local! {
+    static ALL_ALLOWING: std::cell::RefCell<Option<(NetflowParser, NetflowParser)>> = const { std::cell::RefCell::new(None) };
+}
+
 pub fn judge(seq: &[usize], prior: usize, ak: usize, all_set: &std::collections::HashSet<u16>) -> Eval {
     let buf = menu::chain(seq);
     let s = menu::allowed_set(ak);
@@ -59,15 +63,27 @@ pub fn judge(seq: &[usize], prior: usize, ak: usize, all_set: &std::collections:
     }
     ps.allowed_versions = s_set.clone();
     // state reference: an all-allowing parser that is fed, call by call, only the bytes the subject may look at
-    let mut pp = NetflowParser::default();
+    // (both all-allowing parsers are kept per thread and only their caches are reset: building a 65 536-member set
+    // twice per case dominated the run)
+    let (mut pp, mut pall) = ALL_ALLOWING.with(|c| c.borrow_mut().take()).unwrap_or_else(|| {
+        let mk = || {
+            let mut p = NetflowParser::default();
+            p.allowed_versions = all_set.clone();
+            p
+        };
+        (mk(), mk())
+    });
+    for p in [&mut pp, &mut pall] {
+        p.v9_parser.templates.clear();
+        p.v9_parser.options_templates.clear();
+        p.ipfix_parser.templates.clear();
+        p.ipfix_parser.options_templates.clear();
+    }
     if late {
         for c in prior_calls(prior) {
             pp.parse_bytes(&c);
         }
     }
-    pp.allowed_versions = all_set.clone();
-    let mut pall = NetflowParser::default();
-    pall.allowed_versions = all_set.clone();
     let mut issues = vec![];
     let mut tags = vec![];
     let mut keyacc = vec![];
@@ -137,6 +153,9 @@ pub fn judge(seq: &[usize], prior: usize, ak: usize, all_set: &std::collections:
     }
     tags.sort();
     tags.dedup();
+    if pp.allowed_versions.len() == 65536 && pall.allowed_versions.len() == 65536 {
+        ALL_ALLOWING.with(|c| *c.borrow_mut() = Some((pp, pall)));
+    }
     Eval { key: h64(&(keyacc, ak)) | 1, transitions: 3 * calls.len() as u64, issues, tags }
 }
 
